@@ -1,0 +1,26 @@
+//go:build verif
+
+package verifhook
+
+import "sync/atomic"
+
+// Handler receives the name of a hook point and its arguments.
+// A handler may block; that is how schedules are forced.
+type Handler func(point string, args ...interface{})
+
+var handler atomic.Value
+
+// Set installs h (nil removes the handler).
+func Set(h Handler) {
+	handler.Store(&h)
+}
+
+// At reports that the calling goroutine reached the named point.
+func At(point string, args ...interface{}) {
+	if p, ok := handler.Load().(*Handler); ok && p != nil && *p != nil {
+		(*p)(point, args...)
+	}
+}
+
+// Enabled reports whether hooks are compiled in.
+func Enabled() bool { return true }
